@@ -154,6 +154,9 @@ class Exec:
             s.fbyid[i + 1] = name
         s.ipd = {}
         s.ginit = {}
+        s.mem_trace = None       # when a list: every concrete-address access (kind, region, offset, n, atomic, lockset, pc) (C19)
+        s.cur_atomic = False
+        s.lockset = []
         s.load_trace = None      # when a set: (region, offset, nbytes) of every concrete-address load (footprints, C12)
         s.track_dead = False     # when set: stack slots of returned functions are remembered; touching one is a 'uaf' exit class
         s.dead = set()
@@ -234,6 +237,8 @@ class Exec:
             s.exits.append((list(st.pc), 'uaf', 'load from dead stack slot %s+%s (%s)' % (reg.name, p.o, desc)))
         if s.load_trace is not None and reg.arr is None:
             s.load_trace.add((p.r, p.o, n))
+        if s.mem_trace is not None and reg.arr is None:
+            s.mem_trace.append(('R', p.r, p.o, n, s.cur_atomic, tuple(s.lockset), list(st.pc)))
         if reg.arr is not None:
             off = bv(p.o, 64)
             s.oblig.append((list(st.pc), z3.And(z3.ULE(off, reg.size - n), z3.ULE(off + n, reg.size)), 'load of %d byte(s) inside %s' % (n, reg.name)))
@@ -281,6 +286,8 @@ class Exec:
         if p.sym:
             return s.store_sym(st, p, n, v)
         reg = st.wregion(p.r)
+        if s.mem_trace is not None and reg.arr is None:
+            s.mem_trace.append(('W', p.r, p.o, n, s.cur_atomic, tuple(s.lockset), list(st.pc)))
         if s.track_dead and p.r in s.dead:
             s.exits.append((list(st.pc), 'uaf', 'store to dead stack slot %s+%s' % (reg.name, p.o)))
         if reg.arr is not None:
@@ -1049,6 +1056,7 @@ def step(s, fr, st, x):
         env[d] = s.gep(st, bt, s.val(st, fr, None, base), [(it, s.val(st, fr, it, iv)) for it, iv in idx])
     elif k == 'load':
         _, d, t, a, atomic = x
+        s.cur_atomic = bool(atomic)
         p = s.val(st, fr, None, a)
         if t.k == 'fp':
             env[d] = s.load(st, p, t.bits // 8, fr.fn.name)
@@ -1073,6 +1081,7 @@ def step(s, fr, st, x):
             raise Abort('load of aggregate ' + repr(t))
     elif k == 'store':
         _, _, t, v, a, atomic = x
+        s.cur_atomic = bool(atomic)
         p = s.val(st, fr, None, a)
         V = s.val(st, fr, t, v)
         if t.k == 'int':
@@ -1123,6 +1132,7 @@ def step(s, fr, st, x):
         env[d] = V
     elif k == 'atomicrmw':
         _, d, rop, t, a, v = x
+        s.cur_atomic = True
         p = s.val(st, fr, None, a)
         n = s.m.size(t)
         old = s.load(st, p, n)
